@@ -455,6 +455,23 @@ def explore(rng, tier, replay=None):
     }
     if "main_on_new_table" in _state:
         ctx["rule"] += "; theorems of Proofs.C20 over the changed table: %r" % (_state["main_on_new_table"],)
+    # the instructions that read and write these words (mov/push/pop/alb/tstb of status, config, ar/arp, icr),
+    # also from states inside block repeats, where the loop-flag slots matter
+    try:
+        from checks import alu_common
+        iv, istats = alu_common.instr_slice(rng, ["mov_icr", "mov_Abl_SttMod", "mov_SttMod", "mov_Imm16_SttMod",
+                                                  "mov_ArRn1_ArStep1_SttMod", "mov_Abl_ArArp", "mov_ArArp", "mov_Imm16_ArArp",
+                                                  "mov_ArRn1_ArStep1_ArArp", "mov_MemR7Imm16_ArArpSttMod",
+                                                  "mov_ArArpSttMod_MemR7Imm16", "push_ArArpSttMod", "pop_ArArpSttMod",
+                                                  "alb_Alb_Imm16_SttMod", "tstb_SttMod", "mov_Register_Register",
+                                                  "mov_Imm16_Register", "push_Register", "pop_Register", "load_", "mov2",
+                                                  "mova"], 1 if tier == "quick" else 6)
+        ctx["violations"] = ctx.get("violations", []) + iv
+        ctx["instruction_slice"] = istats
+        ctx["evaluations"] = ctx.get("evaluations", 0) + istats["instruction_cases"]
+    except RuntimeError as ex:
+        ctx["violations"] = ctx.get("violations", []) + [("instruction slice could not run: " + str(ex)[-300:],
+                                                          {"kind": "error", "error": str(ex)[-2000:]}, False)]
     ctx["explore_wall_s"] = round(time.time() - t0, 2)
     return ctx
 
